@@ -213,10 +213,15 @@ class HotReloader:
 
             # Optional synchronous initial check before the loop starts
             want_initial = self._initial_load if initial_load is None else bool(initial_load)
-            if want_initial:
-                # RLock allows re-entrancy here
-                self.check_and_reload(force=force_initial)
 
+        if want_initial:
+            # Not under the lock: inside a running event loop the check runs in a helper
+            # thread that needs the lock itself (holding it here would deadlock).
+            self.check_and_reload(force=force_initial)
+
+        with self._lock:
+            if self._thread and self._thread.is_alive():
+                return
             self._thread = threading.Thread(
                 target=self._run_loop, args=(poll_iv,), daemon=self.thread_daemon
             )
@@ -225,11 +230,14 @@ class HotReloader:
     def stop(self, timeout: float | None = 1.0) -> None:
         """Signal the polling thread to stop and optionally wait for it."""
         with self._lock:
-            if not self._thread:
+            thread = self._thread
+            if not thread:
                 return
             self._stop_event.set()
-            self._thread.join(timeout=timeout)
-            if not self._thread.is_alive():
+        # Join without the lock: the polling thread needs it to finish an in-flight check.
+        thread.join(timeout=timeout)
+        with self._lock:
+            if self._thread is thread and not thread.is_alive():
                 self._thread = None
 
     # Diagnostics ------------------------------------------------------------
